@@ -255,6 +255,30 @@ def run_case(case: dict) -> dict:
         import traceback
 
         return core.result(sig=core.sha(net), nontrivial=True, violations=[core.viol("build_model raised on a legal network", None, error=traceback.format_exc()[-600:], **ctx)], counters=counters)
+    # --- one mapper object, two builds: other maps first, then (maps replaced through the public field) this case's ----------
+    if maps and rng.random() < 0.3:
+        other = {}
+        for k, v in maps.items():
+            w = list(v)
+            rng.shuffle(w)
+            other[k] = w
+        try:
+            reused = LabelMapper(rm.build(spec), label_variables=dict(labels), label_maps=other)
+            reused.build_model()
+            for k, v in maps.items():
+                if rng.random() < 0.5:
+                    reused.label_maps[k] = list(v)
+                else:
+                    reused.label_maps[k][:] = list(v)
+            m2 = reused.build_model(initial_labels=dict(init) or None)
+            canon2 = lambda m: sorted(tuple(sorted((k, float(v)) for k, v in r.stoichiometry.items() if v != 0)) for r in m.get_raw_reactions().values())  # noqa: E731
+            if canon2(m2) != canon2(lm) or m2.get_initial_conditions() != lm.get_initial_conditions():
+                viols.append(core.viol("second build of one mapper (maps replaced in between) differs from a fresh mapper's build", None, first_maps=other, **ctx))
+            counters["mapper_reused_for_a_second_build_after_its_maps_were_replaced"] = 1
+        except Exception:  # noqa: BLE001
+            import traceback
+
+            viols.append(core.viol("second build of one mapper (maps replaced in between) raised", None, error=traceback.format_exc()[-500:], first_maps=other, **ctx))
     # --- structure -----------------------------------------------------------
     got_rx = lm.get_raw_reactions()
     exp_st: list[dict] = []
